@@ -200,6 +200,8 @@ class Sim:
                 b = v.get("bytes", v.get("target_bytes"))
                 if b is not None:
                     self.statics[k] = Bytes(b, static=k)
+            for k, v in getattr(c, "ext_adts", {}).items():
+                self.adts.setdefault(k, v)      # small foreign enums the crate uses (variant names, discriminants)
             self.adts.update(c.adts)
 
     # ------------------------------------------------------------ lookup
@@ -888,6 +890,11 @@ class Sim:
             # closure MIR: _1 = the closure (or a reference to it), _2.. = args
             return self._inline(fn, env, bb, t, path, depth, cf, [clo] + list(cargs), cont)
         if isinstance(clo, FnItem):
+            ctor = {"Some": ("std::option::Option", 1), "Ok": ("std::result::Result", 0),
+                    "Err": ("std::result::Result", 1)}.get(clo.path.rsplit("::", 1)[-1]) \
+                if clo.path.startswith(("std::prelude::", "std::option::Option::", "std::result::Result::", "core::")) else None
+            if ctor and len(cargs) == 1:
+                return [cont(Adt(ctor[0], ctor[1], [cargs[0]]))]
             cf = self.find_fn(clo.path)
             if cf is None or depth >= self.max_depth:
                 return None
@@ -1092,6 +1099,18 @@ class Sim:
             return ("value", UNK)
         if p == "std::option::Option::<T>::take":
             return None
+        if p.endswith("<impl str>::contains") and len(d) == 2 and isinstance(d[0], Bytes):
+            # `"!$%&".contains(c)` with a character or a string needle
+            hay = bytes(d[0].b)
+            if isinstance(d[1], int):
+                needle = chr(d[1]).encode("utf-8") if 0 <= d[1] < 0x110000 else None
+            elif isinstance(d[1], Bytes):
+                needle = bytes(d[1].b)
+            else:
+                needle = None
+            if needle is not None:
+                return ("value", int(needle in hay))
+            return ("value", UNK)
         if p == "core::slice::<impl [T]>::contains" or p.endswith("<impl [T]>::contains"):
             s, x = d[0], d[1]
             if isinstance(s, Bytes) and isinstance(x, int):
